@@ -494,6 +494,11 @@ func c18Gen(g *Gen, n int) {
 	for _, s := range []int64{c18MinSecs, c18MaxSecs, 0, -1, 951782400, c18MinSecs - 1, c18MaxSecs + 1} {
 		g.Emit("pseudo.format "+i64toa(s), true, "format-boundary")
 	}
+	// the random stream keeps at least n/3 ops of its own, however large the fixed lists above grow (today
+	// they are 709 of the quick tier's 20000 ops, so this changes nothing)
+	if n < g.st.Ops+n/3 {
+		n = g.st.Ops + n/3
+	}
 	for g.st.Ops < n {
 		switch g.Intn(22) {
 		case 20, 21: // call histories on build-suffix twins (see c18GenFamily)
